@@ -410,6 +410,8 @@ func CheckC07(r *Report) {
 		r.Transitions += int64(n)
 		_ = doubles.FaultNone
 	}
+	c07Storage(r, add)
+	r.Rule += " || PLUS storage-level corruption: the key rows corrupted in the form the real metastores keep them (every truncation / one-character deletion / structural replacement of the SQL key_record JSON; every missing, null or wrongly typed attribute of the DynamoDB items, v1 and v2 plugins), decrypted by a cold factory and by a warm session"
 }
 
 func isStructuralRowMutation(n string) bool {
